@@ -10,7 +10,9 @@ NUMKEYS = ["1", "2", "10", "1.0", "007"]
 IDXVALS = ["x", "y", "z", "x.y", "xy", ""]
 NUMS = ["1", "2", "10", "1.5", "0.1", "-3", "100", "1e2", "007", "2.50", "0", "010", "0017", "8", "1234567890123456", "9007199254740991",
         # integer-valued numbers beyond the 64-bit integers (exactly representable in binary floating point)
-        "100000000000000000000", "-10000000000000000000", "1E+30", "9223372036854775808", "2e19"]
+        "100000000000000000000", "-10000000000000000000", "1E+30", "9223372036854775808", "2e19",
+        # zero in several notations (negative zero is zero)
+        "-0", "0.0", "-0.0", "0e5"]
 TABLES = ["tbl", "tb2"]
 
 # binary keys: bytes below and above 0x10 mixed, values that are prefixes of each other, different lengths
@@ -88,6 +90,9 @@ class Gen:
         if r.random() < 0.05:
             # ... or like a value placeholder: the value sent with the request is what ":v" means, not this attribute
             it[r.choice([":v", ":n", ":w", ":h", ":r", ":a"])] = r.choice([S(r.choice(IDXVALS)), N(r.choice(NUMS)), S(r.choice(HASHES))])
+        if r.random() < 0.06:
+            # empty containers among the attributes (also nested): they are values like any other
+            it[r.choice(["e", "m"])] = r.choice([{"M": {}}, {"L": []}, {"M": {"in": {"M": {}}}}, {"L": [{"M": {}}]}])
         for name in ["n", "s", "ss", "l", "m", "x"]:
             if r.random() < 0.3:
                 it[name] = {"n": lambda: N(r.choice(NUMS)), "s": lambda: S(r.choice(["", "x", "hello"])),
@@ -161,6 +166,8 @@ class Gen:
             ("contains(ss, :v)", {}, {":v": S(r.choice(["p", "q"]))}),
             ("contains(s, :v)", {}, {":v": S("ell")}),
             ("NOT (g = :v)", {}, {":v": S(v)}), ("NOT g = :v", {}, {":v": S(v)}),
+            ("g IN (f, :v)", {}, {":v": S(v)}), ("zq IN (nope, :v)", {}, {":v": S(v)}), ("zq IN (nope)", {}, {}), ("f IN (zq, g)", {}, {}),
+            ("n IN (:z, :n)", {}, {":z": N(r.choice(["-0", "0", "0.0"])), ":n": N(n1)}), ("contains(l, :z)", {}, {":z": N(r.choice(["-0", "0", "1.0", "1"]))}),
             ("NOT g = :v AND attribute_exists(f)", {}, {":v": S(v)}), ("attribute_exists(h) AND NOT g = :v AND f = :w", {}, {":v": S(v), ":w": S(w)}),
             ("NOT attribute_exists(f) AND g = :v", {}, {":v": S(v)}), ("NOT g = :v OR f = :w AND NOT n > :n", {}, {":v": S(v), ":w": S(w), ":n": N(n1)}),
             ("n > :n", {}, {":n": N(r.choice(["1.5", "9.5", "0.6", "99.75"]))}), ("n <= :n", {}, {":n": N(r.choice(["1.5", "9.5", "0.6", "2.25"]))}),
@@ -211,7 +218,8 @@ class Gen:
             ("SET before = if_not_exists(n, :z) ADD n :n", {}, {":z": N("0"), ":n": N(n1)}), ("SET prev = if_not_exists(m, :e), m.x = :v", {}, {":e": {"M": {}}, ":v": S(v)}),
             ("SET nx = n ADD nx :n", {}, {":n": N(n1)}), ("SET l2 = list_append(l, :l) REMOVE l[0]", {}, {":l": {"L": [S(v)]}}),
             ("DELETE ss :s", {}, {":s": {"SS": ["q"]}}), ("DELETE ss :s", {}, {":s": {"SS": ["p", "q", "r"]}}),
-            ("SET l = list_append(l, :l)", {}, {":l": {"L": [S(v)]}}),
+            ("SET l = list_append(l, :l)", {}, {":l": {"L": [S(v)]}}), ("SET l2 = list_append(l, :l)", {}, {":l": {"L": [S(v)]}}),
+            ("SET l2 = list_append(:l, l), l3 = l", {}, {":l": {"L": [N(n1)]}}), ("SET n = n - :n - :n", {}, {":n": N(n1)}), ("SET n = :a - n - :n", {}, {":a": N("100"), ":n": N(n1)}),
             ("SET l = list_append(if_not_exists(l, :e), :l)", {}, {":e": {"L": []}, ":l": {"L": [N(n1)]}}),
             ("REMOVE l[0]", {}, {}), ("REMOVE l[0], l[1]", {}, {}), ("SET l[1] = :v", {}, {":v": S(v)}),
             ("SET m.x = :v", {}, {":v": S(v)}), ("REMOVE m.x", {}, {}), ("SET m = :m", {}, {":m": {"M": {"x": S(v)}}}),
@@ -396,7 +404,14 @@ class Gen:
                     tabs[c].append(t); ops += o
             elif k < 0.985:
                 t = r.choice(tabs[c])
-                if r.random() < 0.5:
+                kattr = [a for a, ty in [t["schema"]["hash"]] + ([t["schema"]["range"]] if t["schema"]["range"] else []) if ty != "S"]
+                if kattr and r.random() < 0.5:
+                    # the AddIndex helper declares a new attribute first and one of the table's own number / binary key
+                    # attributes second, both as strings: the re-typing of the key attribute is refused as a whole
+                    ops.append(dict(op="add_index", client=c, table=t["name"], index="byk", hash="g", range=kattr[0]))
+                    ops.append(dict(op="describe_table", client=c, table=t["name"]))
+                    ops += self.data_op(c, [t], len(ops))
+                elif r.random() < 0.5:
                     ops.append(dict(op="update_table", client=c, table=t["name"], attrs=[dict(name="f", type="S")],
                                     create=dict(name="fix", hash=dict(name="f"), throughput=r.random() < 0.7)))
                     # the index may or may not be created (billing mode); queries on it tolerate both
@@ -418,7 +433,7 @@ class ExprGen(Gen):
     def typed_value(self, t, depth=1):
         r = self.r
         if t == "S": return S(r.choice(["", "x", "xy", "y", "hello", "a b", "S", "N"]))
-        if t == "N": return N(r.choice(NUMS))
+        if t == "N": return N(r.choice(NUMS + ["0", "-0", "0.0"]))
         if t == "B": return {"B": r.choice(["", "x", "xy", "\x01\x02", "\xff"])}
         if t == "BOOL": return {"BOOL": r.random() < 0.5}
         if t == "NULL": return {"NULL": r.random() < 0.85}
@@ -459,6 +474,9 @@ class ExprGen(Gen):
             from decimal import Decimal, InvalidOperation
             try:
                 d = Decimal(v["N"])
+                if d == 0 and r.random() < 0.7:
+                    v["N"] = r.choice([z for z in ["0", "-0", "0.0", "-0.0", "0e3", "-0E1"] if z != own["N"]])     # zero is zero, whatever its sign and notation
+                    return v
                 v["N"] = format(d + Decimal(r.choice(["0.5", "-0.5", "0.25", "-0.75", "0.001", "1", "-1", "1e25", "-1e25"])), "f")
             except InvalidOperation:
                 pass
@@ -470,6 +488,9 @@ class ExprGen(Gen):
         for a in ATTRS:
             if r.random() < 0.75:
                 it[a] = self.typed_value(r.choice(TYPES + ["N", "S"]))
+        if r.random() < 0.06:
+            # an attribute whose name is a digit string: a list index written with that digit is still a position
+            it[r.choice(["0", "1", "2"])] = N(r.choice(["0", "1", "2", "7"]))
         return it
 
     def path(self, ctx):
@@ -498,7 +519,11 @@ class ExprGen(Gen):
                 name = ":i%d" % len(ctx["values"])
                 ctx["values"][name] = N(r.choice(["-1", "0", str(n), "1.5", "-0", "1e0"]))
                 return base + "[%s]" % name
-            return base + "[%d]" % r.choice([max(n - 1, 0), n, n, n + 1, 0])
+            idx = r.choice([max(n - 1, 0), n, n, n + 1, 0])
+            if r.random() < 0.2 and "item" in ctx:
+                # the item also owns a number attribute NAMED like the index: the index is a position, never that attribute
+                ctx["item"][str(idx)] = N(str(r.choice([j for j in range(0, 4) if j != idx])))
+            return base + "[%d]" % idx
         if v and "M" in v and v["M"] and r.random() < 0.6:
             return base + "." + r.choice(list(v["M"]))
         k = r.random()
@@ -596,6 +621,16 @@ class ExprGen(Gen):
             if wrap == "map": own, other = {"M": {"k": own}}, {"M": {"k": other}}
             e = r.choice(["a = :v", "a <> :v", "a IN (:v, :w)", "NOT a = :v", ":v = a"])
             return dict(op="match", expr=e, item={"a": own, "b": S("x")}, names={}, values={":v": other, ":w": S("x")})
+        if r.random() < 0.03:
+            # zero is zero: the same number in another notation (sign, fraction, exponent) is equal to it everywhere a number
+            # is compared - alone, as operand of IN, as element of a list, as member of a map or of a number set
+            zs = ["0", "-0", "0.0", "-0.0", "0e3", "-0E1", "00"]
+            z1, z2 = r.sample(zs, 2)
+            if r.random() < 0.3: z1, z2 = r.choice([("1", "1.0"), ("10", "1e1"), ("2.50", "2.5"), ("100", "1E+2")])
+            e = r.choice(["a IN (:w, :v)", "contains(l, :v)", "l = :lv", "m = :mv", "ns = :nsv", "a = :v", "NOT a IN (:v)", "contains(ns, :v)", "a BETWEEN :v AND :v"])
+            item = {"a": N(z1), "l": {"L": [S("x"), N(z1)]}, "m": {"M": {"k": N(z1)}}, "ns": {"NS": [z1, "7"]}}
+            vals = {":v": N(z2), ":w": S("no"), ":lv": {"L": [S("x"), N(z2)]}, ":mv": {"M": {"k": N(z2)}}, ":nsv": {"NS": ["7", z2]}}
+            return dict(op="match", expr=e, item=item, names={}, values={k: v for k, v in vals.items() if k in e})
         ctx = dict(names={}, values={}, item=self.expr_item())
         e = self.cond_expr(ctx, self.r.randrange(0, depth + 1))
         if r.random() < 0.12:
@@ -684,7 +719,11 @@ class ExprGen(Gen):
                 q = r.random()
                 t = r.choice(TYPES)
                 if q < 0.45: rhs = self.val(ctx, t)
-                elif q < 0.6: rhs = "%s %s %s" % (self.upd_operand(ctx, "N"), r.choice("+-"), self.upd_operand(ctx, "N"))
+                elif q < 0.52: rhs = "%s %s %s" % (self.upd_operand(ctx, "N"), r.choice("+-"), self.upd_operand(ctx, "N"))
+                elif q < 0.6:
+                    # a chain of additions and subtractions groups from the left: a - b - c is (a - b) - c
+                    rhs = "%s %s %s %s %s" % (self.upd_operand(ctx, "N"), r.choice("-+-"), self.upd_operand(ctx, "N"), r.choice("-+-"), self.upd_operand(ctx, "N"))
+                    if r.random() < 0.3: rhs += " %s %s" % (r.choice("+-"), self.upd_operand(ctx, "N"))
                 elif q < 0.75: rhs = "if_not_exists(%s, %s)" % (self.path(ctx), self.val(ctx, t) if r.random() < 0.6 else self.path(ctx))
                 elif q < 0.9: rhs = "list_append(%s, %s)" % (self.upd_operand(ctx, "L"), self.upd_operand(ctx, "L"))
                 else: rhs = self.path(ctx)
